@@ -256,8 +256,81 @@ def gen_pens_history(rng):
         else: emit("pbind %d q%d" % (k, k))
     emit("end")
 
+# grapheme clusters for the mock terminal: (bytes, columns).  One cell holds one cluster; a double-width cluster
+# leaves its second cell empty (NULL string).
+CLUSTERS = [("41", 1), ("7a", 1), ("20", 1), ("c3a9", 1), ("c2a1", 1), ("e282ac", 1), ("e4b8ad", 2), ("efbca1", 2), ("f09f9880", 2),
+            ("f0a08080", 2), ("65cc81", 1), ("41cc81cc88", 1), ("e4b8adcc81", 2), ("78e2808b", 1)]
+def mock_print(scr, L, C, line, col, clusters):
+    """mtd_goto_abs + mtd_print on the generator's copy of the screen (only used to steer clear of the known
+    exact-fill overflow; the Lean model decides what the display holds)"""
+    line = min(max(line, 0), L - 1); cur = min(max(col, 0), C - 1)
+    for hx, w in clusters:
+        sc = cur
+        if sc >= C:
+            sc = 0
+            if line < L - 1: line += 1
+        scr[line][sc] = hx
+        for k in range(sc + 1, min(cur + w, C)): scr[line][k] = None
+        cur += w
+def mock_disp_exact_fill(scr, line, col, width, ln):
+    """does tickit_mockterm_get_display_text copy a cell that exactly fills what is left (terminator at buffer[len])?"""
+    if ln <= 0: return False
+    rem = ln
+    for c in range(col, col + width):
+        n = len(scr[line][c]) // 2 if scr[line][c] else 0
+        if n and rem >= n:
+            rem -= n
+            if rem == 0: return True
+    return False
+def mock_lens(scr, line, col, width):
+    """buffer lengths for a span: (safe lengths that end inside a cell of several bytes, other safe lengths)"""
+    sizes = [len(scr[line][c]) // 2 if scr[line][c] else 0 for c in range(col, col + width)]
+    total = sum(sizes)
+    inside, other = [], []
+    for ln in range(1, total + 3):
+        if mock_disp_exact_fill(scr, line, col, width, ln): continue
+        # replay the walk: is some cell of several bytes refused because only part of it would fit?
+        rem, cut = ln, False
+        for n in sizes:
+            if n and rem >= n: rem -= n
+            elif n > 1 and rem > 0: cut = True
+        (inside if cut else other).append(ln)
+    return inside, other
+
+def gen_mock_content_history(rng, lens_all=False):
+    Lm, Cm = rng.randint(1, 3), rng.randint(2, 9)
+    emit("newmock %d %d" % (Lm, Cm))
+    scr = [["20"] * Cm for _ in range(Lm)]
+    for _ in range(rng.randint(1, 4)):
+        line = rng.randrange(Lm); col = rng.randrange(Cm) if rng.random() < 0.6 else 0
+        cl = []; used = col
+        for _ in range(rng.randint(1, Cm)):
+            c = rng.choice(CLUSTERS) if rng.random() < 0.75 else ("%02x" % rng.choice(ASCII), 1)
+            # mostly inside the line; now and then up to and over the right edge (wrap, wide character cut by the edge)
+            if used + c[1] > Cm and rng.random() < 0.85: break
+            cl.append(c); used += c[1]
+        if not cl: cl = [rng.choice(CLUSTERS[:6])]
+        emit("mprint %d %d %s" % (line, col, "".join(h for h, _ in cl)))
+        mock_print(scr, Lm, Cm, line, col, cl)
+    for _ in range(rng.randint(2, 8)):
+        line = rng.randrange(Lm); col = rng.randrange(Cm); width = rng.randint(1, Cm - col)
+        if rng.random() < 0.5: col, width = 0, Cm
+        inside, other = mock_lens(scr, line, col, width)
+        # a length <= width overflows by one on an empty screen (known finding mockterm_display_text): when a failing
+        # history is shrunk it turns into that probe, so most lengths are larger than the width
+        big = lambda l: [x for x in l if x > width] or l
+        r = rng.random()
+        if r < 0.08: ln = rng.choice([-1, 0])
+        elif r < 0.70 and inside: ln = rng.choice(big(inside) if rng.random() < 0.85 else inside)
+        elif other: ln = rng.choice(big(other) if rng.random() < 0.85 else other)
+        else: ln = 0
+        emit("mdisp %d %d %d %d" % (ln, line, col, width))
+    if rng.random() < 0.3: emit("tref")
+    emit("end")
+
 def gen_copyout_history(rng):
-    if rng.random() < 0.2:
+    if rng.random() < 0.3:
+        if rng.random() < 0.65: return gen_mock_content_history(rng)
         Lm, Cm = rng.randint(1, 3), rng.randint(2, 8)
         emit("newmock %d %d" % (Lm, Cm))
         for _ in range(rng.randint(1, 6)):
@@ -299,7 +372,23 @@ if a.tier == "exhaustive":
             emit("bind 2 key 0 u2")
             for s in seq: emit(s)
             emit("flush"); emit("end"); nh += 1
-    info = {"exhaustive_bound": "all sequences of <=3 (and a seed-selected quarter of the length-4) operations over a 13-letter lifecycle alphabet on root>1>2, 3 sibling of 1, one pen, one self-unref key handler; each followed by flush and end", "histories": nh}
+    # the mock terminal's copy-out call: every safe buffer length for every span of five fixed lines
+    FIXED = [[("c3a9", 1), ("41", 1), ("e4b8ad", 2), ("e282ac", 1)], [("e4b8ad", 2), ("f09f9880", 2), ("7a", 1)],
+             [("65cc81", 1), ("efbca1", 2), ("c2a1", 1), ("41cc81cc88", 1)], [("41", 1), ("e4b8adcc81", 2), ("78e2808b", 1), ("c3a9", 1)],
+             [("f0a08080", 2), ("c3a9", 1), ("c3a9", 1), ("e282ac", 1)]]
+    nm = 0
+    for cl in FIXED:
+        Cm = sum(w for _, w in cl) + (a.seed % 2)
+        for col in range(Cm):
+            for width in range(1, Cm - col + 1):
+                scr = [["20"] * Cm]
+                mock_print(scr, 1, Cm, 0, 0, cl)
+                inside, other = mock_lens(scr, 0, col, width)
+                emit("newmock 1 %d" % Cm); emit("mprint 0 0 %s" % "".join(h for h, _ in cl))
+                for ln in [-1, 0] + sorted(inside + other): emit("mdisp %d 0 %d %d" % (ln, col, width))
+                emit("end"); nm += 1
+    info = {"mock_display_histories": nm}
+    info.update({"exhaustive_bound": "all sequences of <=3 (and a seed-selected quarter of the length-4) operations over a 13-letter lifecycle alphabet on root>1>2, 3 sibling of 1, one pen, one self-unref key handler; each followed by flush and end; tickit_mockterm_get_display_text with every buffer length (short of the known exact-fill overflow) for every span of five fixed lines of multi-byte, double-width and combining cells", "histories": nh})
 else:
     scale = 1 if a.tier == "quick" else 5
     fams = {"tree": 700, "handlers": 700, "foreign": 400, "objects": 400, "pens": 400, "copyout": 400}
